@@ -366,6 +366,12 @@ func proofs(o *vlib.Out, rng *rand.Rand, reps int) {
 				}
 				b[off+rng.Intn(half)] ^= 1 << uint(rng.Intn(8))
 				p := alt(b)
+				if p != nil { // an ignored top bit of a ristretto255 scalar: flip a low bit as well so that the component really changes
+					if rb, _ := p.MarshalBinary(); bytes.Equal(rb, pb) {
+						b[off] ^= 1
+						p = alt(b)
+					}
+				}
 				rec(obj, site, func() bool { return p != nil && v.VerifyBatch(A, kA, Bs, kBs, p) })
 			}
 			G1 := g.Generator()
